@@ -24,6 +24,20 @@ generate_events) against a boring reference interpreter over the generator's own
              `when/else when` and `stop` are in docs/user_guides (syntax guide, rails examples); `break` and
              `continue` are keywords of the v1 parser that the docs do not describe - they are given their
              conventional loop meaning and live in the `ctl` groups only.
+             Groups of their own (run first):
+               layout : every program with a block statement of grammar `lay` (= nest with conditions $c == 0 /
+                        $c == 1) and every `ctl` program with a `when`, sizes 2-3 [2-4], written with EVERY
+                        assignment of an indentation step in {2, 4} to the block kinds that occur in it (flow
+                        body, then body, else body, while body, first when body, else-when bodies; a block is
+                        indented relative to the line that opens it) except 2 everywhere.  The syntax guide calls
+                        the syntax "pythonic ... indentation is used as a syntactic element" and only RECOMMENDS
+                        two spaces: the program, hence the reference, is the same for every layout.
+               aug    : `$c += e` / `$c -= e` (parser shorthands the docs do not describe; conventional meaning:
+                        e is evaluated, then added / subtracted) for e in AUG_RHS (a constant, a variable, one
+                        operator of equal / higher / lower precedence) after $c = 0 | 1 | 2, followed by nothing /
+                        a bot step / an if on the assigned value [else].  The reference evaluates e with Python.
+               loop   : while $c < k for k in {3, 6, 12} over five bodies, alone and followed by a bot step,
+                        followed to the end (k = 3: also left at any point).
   driver     plays RuntimeV1_0.generate_events by hand with the runtime's own methods: _compute_next_steps
              (history), append the decided events; after a StartInternalSystemAction the real
              _process_start_action with a registered stub action (returns the scripted result, records the
@@ -51,6 +65,15 @@ generate_events) against a boring reference interpreter over the generator's own
              independent second parse: identical decisions, identical events and action arguments from
              _process_start_action; the first histories are evaluated once more on the used runtime after
              all other calls.
+             State of the instance: after EVERY call on the used runtime (decision, action execution, whole
+             turn) its state (flow configs with their element dicts, the parsed flows of its config, its plain
+             attributes, module-level data objects of the v1 runtime modules) is compared with the state before
+             the call.  No call changes it => by induction any number of calls in any order decides like the
+             first one.  A decision call that does change it (first PUMP_NODES such histories of a program, BFS
+             order) is repeated on the used runtime until the state recurs (every further repetition is then
+             one already seen) or PUMP_MAX repetitions; every repetition must decide like the first call (which
+             was compared with the fresh runtime and the reference).  The first history of the programs of
+             `ctl` size 2 and `loop` k=3 is repeated PUMP_MAX times without such a reason as well.
   classes    signature = kind : path of the statement the flow stood at -> path of the expected statement :
              constructs the reference executed in between : how the decision differs.  Three input classes
              have a signature of their own:
@@ -59,6 +82,9 @@ generate_events) against a boring reference interpreter over the generator's own
                NESTED_SIG   a subflow called a subflow before doing anything else (`do s2` is the first
                             statement it executes)
                WHEN_SIG     a `when` block directly followed by another `when` block was entered
+               ELSE_DEDENT_SIG  an if/else whose else body is indented less than its then body was executed
+               AUG_SIG      `$v += e` / `$v -= e` with an operator in e was executed
+             (the last two: `:step` = the decided step differs in whatever way, `:context`, `:exception`)
   replay     program text + script of user intents / action results; histories are rebuilt with plain calls.
              For a used-vs-fresh difference all earlier calls on the used runtime (decision, action execution,
              whole turn) are stored and repeated first, in order.
@@ -88,6 +114,11 @@ GRAMMARS = {
     "nest": {
         "leaves": (("B",), ("U",), ("I", "c")),
         "conds": (("c", 1),), "wk": (2,), "when": 0,
+    },
+    # the block statements of `nest` with both outcomes of a condition right after `$c = 0` (layout groups)
+    "lay": {
+        "leaves": (("B",), ("U",), ("I", "c")),
+        "conds": (("c", 0), ("c", 1)), "wk": (2,), "when": 0,
     },
     # control statements: when / else when, stop, break, continue
     "ctl": {
@@ -303,6 +334,102 @@ def programs(g, total, sub_sizes=(), sub2_sizes=()):
     return out
 
 
+# ------------------------------------------------------------------ layout variants, augmented assignments
+def _has_else(block):
+    for st in block or ():
+        if st[0] == "IF" and (st[3] or _has_else(st[2])):
+            return True
+        if st[0] == "IF" and _has_else(st[3]):
+            return True
+        if st[0] == "WH" and _has_else(st[2]):
+            return True
+        if st[0] == "WN" and any(_has_else(b) for b in st[1]):
+            return True
+    return False
+
+
+def _max_when_branches(block):
+    m = 0
+    for st in block or ():
+        if st[0] == "IF":
+            m = max(m, _max_when_branches(st[2]), _max_when_branches(st[3]))
+        elif st[0] == "WH":
+            m = max(m, _max_when_branches(st[2]))
+        elif st[0] == "WN":
+            m = max(m, len(st[1]), *[_max_when_branches(b) for b in st[1]])
+    return m
+
+
+def layouts(main, subs=()):
+    """every assignment of an indentation step in {2, 4} to the block kinds that occur in the program
+    (flow body, then body, else body, while body, first when body, else-when bodies), except 2 everywhere
+    (that is the text of the other groups).  A block is indented relative to the line that opens it."""
+    bl = (main,) + tuple(subs)
+    kinds = ["flow"]
+    if any(has(b, "IF") for b in bl):
+        kinds.append("then")
+    if any(_has_else(b) for b in bl):
+        kinds.append("else")
+    if any(has(b, "WH") for b in bl):
+        kinds.append("while")
+    nb = max(_max_when_branches(b) for b in bl)
+    if nb >= 1:
+        kinds.append("when")
+    if nb >= 2:
+        kinds.append("elsewhen")
+    out = []
+    for steps in itertools.product((2, 4), repeat=len(kinds)):
+        if any(x != 2 for x in steps):
+            out.append(tuple(zip(kinds, steps)))
+    return out
+
+
+def layout_programs(g, sizes, compound_only=True):
+    """(main, subs, layout) for every program of grammar g (no subflows) with a block statement x every layout"""
+    out = []
+    for n in sizes:
+        for main, subs in programs(g, n):
+            if compound_only and not any(has(main, k) for k in ("IF", "WH", "WN")):
+                continue
+            for lay in layouts(main, subs):
+                out.append((main, subs, lay))
+    return out
+
+
+# right-hand sides of `$c += e` / `$c -= e`: one constant / variable, and expressions with one operator
+# (same, higher and lower precedence than the + / - of the assignment)
+AUG_RHS = ("1", "$c", "2 - 1", "1 + 1", "$c - 1", "$c + 1", "2 * 2", "1 if $c == 0 else 3")
+
+
+def loop_programs(ks):
+    """loops that go round more often than the `while $c < 1|2` of the grammars: while $c < k over the bodies
+    {count only; count, bot; user, count; bot, user, count; count, if $c == 1 bot}, alone and followed by a bot step"""
+    out = []
+    for k in ks:
+        for body in ((("I", "c"),), (("I", "c"), ("B",)), (("U",), ("I", "c")), (("B",), ("U",), ("I", "c")),
+                     (("I", "c"), ("IF", ("c", 1), (("B",),), None))):
+            for tail in ((), (("B",),)):
+                out.append(((("WH", ("c", k), body),) + tail, ()))
+    return out
+
+
+def aug_programs():
+    """f1: user u0; $c = 0; [$c = 1 | $c = 2;] $c <op>= <rhs>; <post>   with post in {nothing, bot,
+    if $c == <the value the assignment gives> bot [else bot]} - all combinations"""
+    out = []
+    for c0 in (0, 1, 2):
+        pre = () if c0 == 0 else (("S", "c", c0),)
+        for op in ("+=", "-="):
+            for rhs in AUG_RHS:
+                val = aug_value(rhs, {"c": c0})
+                v = c0 + val if op == "+=" else c0 - val
+                a = ("A", "c", op, rhs)
+                for post in ((), (("B",),), (("IF", ("c", v), (("B",),), None),),
+                             (("IF", ("c", v), (("B",),), (("B",),)),), (("IF", ("c", v), (("B",),), None), ("B",))):
+                    out.append((pre + (a,) + post, ()))
+    return out
+
+
 # ------------------------------------------------------------------ labelling + printing
 NAMES = {
     "f1": {"u": "u", "m": "m", "a": "act"},
@@ -312,9 +439,10 @@ NAMES = {
 }
 
 
-def label(main, subs, f2):
+def label(main, subs, f2, layout=None):
     """give every user/bot/execute statement its own name and every statement the path of the
-    constructs around it.  Result is plain lists (json round-trips)."""
+    constructs around it.  Result is plain lists (json round-trips).
+    layout: indentation step per block kind (see to_colang), kept in the program as P["layout"]"""
 
     def lab(block, path, fid, cnt):
         pfx = NAMES[fid]
@@ -334,6 +462,8 @@ def label(main, subs, f2):
                 out.append(["S", st[1], st[2], path])
             elif k == "I":
                 out.append(["I", st[1], path])
+            elif k == "A":
+                out.append(["A", st[1], st[2], st[3], path])
             elif k == "D":
                 out.append(["D", CALLS[fid], path])
             elif k in TERMINAL:
@@ -357,11 +487,21 @@ def label(main, subs, f2):
     for name, sub in zip(("s1", "s2"), subs):
         P["subs"][name] = lab(sub, name, name, {"u": 1, "m": 0, "a": 0})
     P["flows"]["f2"] = lab(f2, "f2", "f2", {"u": 0, "m": 0, "a": 0})
+    if layout:
+        P["layout"] = {k: int(v) for k, v in dict(layout).items()}
     return P
 
 
-def _emit(block, ind, lines):
-    pad = "  " * ind
+STEP_KINDS = ("flow", "then", "else", "while", "when", "elsewhen")
+
+
+def _step(lay, kind):
+    """indentation step (spaces) of a block of that kind relative to the line that opens it"""
+    return int((lay or {}).get(kind, 2))
+
+
+def _emit(block, col, lines, lay=None):
+    pad = " " * col
     for st in block:
         k = st[0]
         if k == "U":
@@ -374,6 +514,8 @@ def _emit(block, ind, lines):
             lines.append(f"{pad}${st[1]} = {st[2]}")
         elif k == "I":
             lines.append(f"{pad}${st[1]} = ${st[1]} + 1")
+        elif k == "A":
+            lines.append(f"{pad}${st[1]} {st[2]} {st[3]}")
         elif k == "D":
             lines.append(f"{pad}do {st[1]}")
         elif k == "T":
@@ -384,20 +526,23 @@ def _emit(block, ind, lines):
             lines.append(f"{pad}continue")
         elif k == "IF":
             lines.append(f"{pad}if ${st[1][0]} == {st[1][1]}")
-            _emit(st[2], ind + 1, lines)
+            _emit(st[2], col + _step(lay, "then"), lines, lay)
             if st[3]:
                 lines.append(f"{pad}else")
-                _emit(st[3], ind + 1, lines)
+                _emit(st[3], col + _step(lay, "else"), lines, lay)
         elif k == "WH":
             lines.append(f"{pad}while ${st[1][0]} < {st[1][1]}")
-            _emit(st[2], ind + 1, lines)
+            _emit(st[2], col + _step(lay, "while"), lines, lay)
         elif k == "WN":
             for bi, (name, body) in enumerate(st[1]):
                 lines.append(f"{pad}{'when' if bi == 0 else 'else when'} user {name}")
-                _emit(body, ind + 1, lines)
+                _emit(body, col + _step(lay, "when" if bi == 0 else "elsewhen"), lines, lay)
 
 
 def to_colang(P, order=("f1", "s1", "s2", "f2")):
+    """the Colang text of the program.  P["layout"] (optional): indentation step per block kind
+    (STEP_KINDS; 2 spaces everywhere when absent) - layout only, the program is the same"""
+    lay = P.get("layout")
     chunks = []
     for name in order:
         lines = []
@@ -405,10 +550,10 @@ def to_colang(P, order=("f1", "s1", "s2", "f2")):
             if P["subs"].get(name) is None:
                 continue
             lines.append(f"define subflow {name}")
-            _emit(P["subs"][name], 1, lines)
+            _emit(P["subs"][name], _step(lay, "flow"), lines, lay)
         else:
             lines.append(f"define flow {name}")
-            _emit(P["flows"][name], 1, lines)
+            _emit(P["flows"][name], _step(lay, "flow"), lines, lay)
         chunks.append("\n".join(lines))
     return "\n\n".join(chunks) + "\n"
 
@@ -433,6 +578,19 @@ def prog_size(P):
 # ------------------------------------------------------------------ reference interpreter
 class RefFuel(Exception):
     pass
+
+
+def aug_value(rhs, ctx):
+    """value of the right-hand side text of an augmented assignment: Python's expression semantics
+    with every `$name` replaced by the (parenthesised) reference value of that variable"""
+    import re
+
+    return eval(re.sub(r"\$(\w+)", lambda m: f"({ctx[m.group(1)]!r})", rhs), {"__builtins__": {}}, {})
+
+
+def aug_compound(rhs):
+    """the right-hand side contains an operator (it is more than one constant / variable)"""
+    return " " in rhs.strip()
 
 
 class _Break(Exception):
@@ -501,12 +659,22 @@ def _exec(block, ctx, P, feats, fuel, frame):
         elif k == "I":
             ctx[st[1]] = ctx[st[1]] + 1
             feats.add("inc")
+        elif k == "A":
+            # `$v += e` / `$v -= e`: e is evaluated first (Python's own reading of the expression text),
+            # then added to / subtracted from the variable
+            val = aug_value(st[3], ctx)
+            ctx[st[1]] = ctx[st[1]] + val if st[2] == "+=" else ctx[st[1]] - val
+            feats.add("aug-assign")
+            if aug_compound(st[3]):
+                feats.add("aug-compound-rhs")
         elif k == "BR":
             raise _Break()
         elif k == "CT":
             raise _Continue()
         elif k == "IF":
             var, const = st[1]
+            if st[3] and _step(P.get("layout"), "else") < _step(P.get("layout"), "then"):
+                feats.add("else-body-dedented")
             if ctx.get(var) == const:
                 feats.add("if-then")
                 yield from _exec(st[2], ctx, P, feats, fuel, frame)
@@ -708,8 +876,33 @@ def lib():
             for n in range(1, 12):
                 disp.register_action(_stub_action, f"{pfx['a']}{n}")
         _LIB.update(RailsConfig=RailsConfig, F=F, Runtime=RuntimeV1_0, new_event_dict=new_event_dict,
-                    dispatcher=disp)
+                    dispatcher=disp, data_globals=_data_globals())
     return _LIB
+
+
+_PLAIN = (int, float, str, bytes, bool, type(None), list, dict, set, frozenset, tuple)
+
+
+def _data_globals():
+    """(module, name) of every module-level data object (numbers, containers) of the Colang 1.0 runtime
+    modules the decision function runs through: part of the state earlier calls could leave behind"""
+    import importlib
+
+    out = []
+    for mn in ("sliding", "flows", "eval", "utils", "runtime"):
+        try:
+            m = importlib.import_module("nemoguardrails.colang.v1_0.runtime." + mn)
+        except Exception:  # noqa
+            continue
+        for name, val in sorted(vars(m).items()):
+            if name.startswith("__") or not isinstance(val, _PLAIN) or isinstance(val, (str, bytes)):
+                continue
+            try:
+                pickle.dumps(val, pickle.HIGHEST_PROTOCOL)
+            except Exception:  # noqa
+                continue
+            out.append((m, name))
+    return out
 
 
 def make_runtime(cfg, flows=None):
@@ -823,6 +1016,31 @@ class World:
         self.results = (0, 1) if any(reads_r(b) for b in blocks_) else (1,)
         self.calls = 0
         self.trace = []  # (script, k) of every decision call made on the used runtime, in order
+        self.state_checks = 0   # calls on the used runtime after which its state was compared
+        self.state_changes = 0  # ... and differed from the state before the call
+        self.changed = False    # did the last call on the used runtime change its state
+        self.sd = self.state_bytes()
+
+    def state_bytes(self):
+        """everything a call can leave behind on the used instance: its flow configs (FlowConfig objects with
+        their element dicts), the parsed flows of its config (the element dicts are shared), its plain
+        attributes, and the module-level data objects of the runtime modules.  Equal bytes => equal state
+        (the converse need not hold; a difference only triggers the repetition check)."""
+        rt = self.rt_used
+        attrs = sorted((k, v) for k, v in vars(rt).items() if k != "flow_configs" and isinstance(v, _PLAIN))
+        globs = [(m.__name__, n, getattr(m, n, None)) for m, n in _LIB["data_globals"]]
+        try:
+            return pickle.dumps((rt.flow_configs, self.cfg_used.flows, attrs, globs), pickle.HIGHEST_PROTOCOL)
+        except Exception as e:  # noqa  (something unpicklable was attached: that is a change, too)
+            return f"unpicklable:{type(e).__name__}:{self.calls}".encode()
+
+    def _after_used_call(self):
+        self.state_checks += 1
+        sd = self.state_bytes()
+        self.changed = sd != self.sd
+        if self.changed:
+            self.state_changes += 1
+            self.sd = sd
 
     def fresh(self):
         return make_runtime(self.cfg_fresh, pickle.loads(self.pristine))
@@ -832,7 +1050,10 @@ class World:
         if nid is not None:
             self.trace.append(["d", nid[0], nid[1]])
         del self.plog[:]
-        return guarded(lambda: _run(self.rt_used._compute_next_steps(hist, processing_log=self.plog)))
+        try:
+            return guarded(lambda: _run(self.rt_used._compute_next_steps(hist, processing_log=self.plog)))
+        finally:
+            self._after_used_call()
 
     def eval_fresh(self, hist):
         self.calls += 1
@@ -853,6 +1074,8 @@ class World:
         del STUB["calls"][:]
         self.calls += 1
         res = guarded(lambda: _run(rt._process_start_action(hist)))
+        if rt is self.rt_used:
+            self._after_used_call()
         return res, (STUB["calls"][-1] if STUB["calls"] else "<not called>")
 
     def whole_turn(self, hist_at_user, results):
@@ -864,6 +1087,7 @@ class World:
             return guarded(lambda: _run(self.rt_used.generate_events(hist_at_user, processing_log=[])))
         finally:
             STUB["script"] = None
+            self._after_used_call()
 
     def visible_context(self, hist):
         c = _LIB["F"].compute_context(hist)
@@ -890,6 +1114,10 @@ def check_node(W, ahist, hist, r, k=0):
         cls = WHEN_SIG
     elif "nested-call-at-subflow-entry" in r["last"]:
         cls = NESTED_SIG
+    elif "else-body-dedented" in r["cum"]:
+        cls = ELSE_DEDENT_SIG
+    elif "aug-compound-rhs" in r["cum"]:
+        cls = AUG_SIG
     if nu != nf:
         du = decode(ru[1])[1] if ru[0] == "ok" else ("exception",)
         df = decode(rf[1])[1] if rf[0] == "ok" else ("exception",)
@@ -914,7 +1142,9 @@ def check_node(W, ahist, hist, r, k=0):
         return None, viol, step
     if step != r["expect"]:
         k = kind_of(step, r["expect"])
-        if cls:
+        if cls in (ELSE_DEDENT_SIG, AUG_SIG):
+            sig = f"{cls}:step"  # whichever way the decided step differs (nothing / another one / one too many)
+        elif cls:
             sig = f"{cls}:{'spurious-step' if k.startswith('spurious') else k}"
         elif r["leave"] and r["leave"] == "unknown-intent":
             sig = f"unknown-intent:{k}:{_short(r['from'])}"
@@ -939,6 +1169,14 @@ INSTANT_SIG = "after-an-episode-that-ended-within-its-start-event"
 NESTED_SIG = "nested-subflow-call-at-subflow-entry"
 # input class: a `when` block directly followed by another `when` block (not `else when`) was entered
 WHEN_SIG = "when-block-directly-after-when-block"
+# input class: an if/else whose else body is indented LESS than its then body (both more than the `if` / `else`
+# lines themselves) was executed
+ELSE_DEDENT_SIG = "else-body-indented-less-than-then-body"
+# input class: `$v += e` / `$v -= e` whose right-hand side e contains an operator was executed
+AUG_SIG = "augmented-assignment-with-operator-in-right-hand-side"
+# how often one decision call is repeated on the used runtime when it changes the state of that runtime
+PUMP_MAX = {"quick": 1500, "thorough": 6000}
+PUMP_NODES = 3  # per program: the first histories (BFS order) whose call changed the state
 
 
 def _check_after_instant(W, ahist, hist, r, ru, rf):
@@ -1003,7 +1241,7 @@ def explore(task):
     """BFS over all histories of one program within the bounds"""
     idx, main, subs, f2name, opts = task
     max_user, max_dev, seed = opts["max_user"], opts["max_dev"], opts.get("seed", 0)
-    P = label(main, subs, F2_VARIANTS[f2name])
+    P = label(main, subs, F2_VARIANTS[f2name], opts.get("layout"))
     order = ("f1", "s1", "s2", "f2") if seed % 2 == 0 else ("f2", "s2", "s1", "f1")
     W = World(P, order)
     counts = {
@@ -1017,7 +1255,11 @@ def explore(task):
         "reevaluated_after_all_calls": 0, "reference_states": 0, "max_history_len": 0,
         "parse_nondeterministic_programs": 0 if W.parse_deterministic else 1,
         "flow_configs_changed_by_use": 0, "violating_histories": 0,
+        "instance_state_compared_after_used_call": 0, "instance_state_changing_calls": 0,
+        "repeated_histories": 0, "repetition_calls": 0, "repetition_chains_closed": 0,
+        "repetition_chains_cut_at_bound": 0, "repetition_chains_differs": 0, "repetition_chains_blind_completed": 0,
     }
+    changers = []  # the first histories whose decision call changed the state of the used runtime
     feat_counts = {}
     viols = {}
     sample = None
@@ -1080,6 +1322,10 @@ def explore(task):
         counts["traces_validated_against_impl"] += 1
         counts["max_history_len"] = max(counts["max_history_len"], len(hist))
         steps, vs, step = check_node(W, ahist, hist, r, k)
+        if W.changed and steps is not None and not vs and len(changers) < PUMP_NODES:
+            changers.append((ahist, hist, k, norm(("ok", steps)),
+                             f"{_short(r['from'])}->{_short(r['to'])}" if r["status"] == "strict" else "left-flow-involved",
+                             "+".join(sorted(r["last"])) or "-"))
         if len(first_nodes) < 6:
             first_nodes.append((ahist, hist, norm(("ok", steps)) if steps is not None else None, k))
         for kind, sig, text in vs:
@@ -1178,6 +1424,47 @@ def explore(task):
             # only a ContextUpdate was decided: the runtime calls the decision function again
             q.append((ahist, h2, ref_run(P, ahist, W.tab) if strict else r, n_user, dev, depth + 1, terminal, zeros,
                       k + 1, turn_at))
+    # a call that leaves the used runtime in another state than it found it: the same call again and again,
+    # until the state of the runtime recurs (then every further repetition is one already seen) or the bound
+    todo = [c + (True,) for c in changers]
+    for ahist, hist, before, k in first_nodes[:opts.get("repeat_blind", 0)]:
+        # the same repetitions without any visible reason (state that is kept out of sight): no early end
+        if before is not None and not any(c[1] is hist for c in changers):
+            rr = ref_run(P, ahist, W.tab)
+            todo.append((ahist, hist, k, before,
+                         f"{_short(rr['from'])}->{_short(rr['to'])}" if rr["status"] == "strict" else "left-flow-involved",
+                         "+".join(sorted(rr["last"])) or "-", False))
+    for ahist, hist, k, before, where, feats, by_state in todo:
+        counts["repeated_histories"] += 1
+        seen = {W.sd}
+        nid = node_id(ahist, k)
+        n, verdict = 0, "cut_at_bound"
+        while n < opts.get("pump_max", 0):
+            n += 1
+            again = norm(W.eval_used(hist))
+            counts["repetition_calls"] += 1
+            if again != before:
+                verdict = "differs"
+                W.trace.append(["r", nid[0], nid[1], n - 1])
+                W.trace.append(["d", nid[0], nid[1]])
+                add_viol("dependence", f"earlier-calls-matter:same-call-repeated:{where}:{feats}",
+                         f"the history gave {_show_res(before)} when it was first evaluated (like a fresh runtime); "
+                         + ("every evaluation changes the state of the runtime object, and " if by_state else "")
+                         + f"repetition {n} of the same call on the used runtime gives {_show_res(again)}",
+                         ahist, len(hist), k, {"repetitions": n})
+                break
+            if by_state and (not W.changed or W.sd in seen):
+                verdict = "closed"
+                break
+            if by_state:
+                seen.add(W.sd)
+        if verdict != "differs":
+            W.trace.append(["r", nid[0], nid[1], n])
+        if verdict == "cut_at_bound" and not by_state:
+            verdict = "blind_completed"
+        counts["repetition_chains_" + verdict] += 1
+        if verdict == "differs":
+            break
     # the first histories once more on the used runtime, after every other call was made
     for ahist, hist, before, k in first_nodes:
         if before is None:
@@ -1191,6 +1478,8 @@ def explore(task):
     if _strip_private(W.cfg_used.flows) != _strip_private(pickle.loads(W.pristine)):
         counts["flow_configs_changed_by_use"] = 1
     counts["transitions"] = W.calls
+    counts["instance_state_compared_after_used_call"] = W.state_checks
+    counts["instance_state_changing_calls"] = W.state_changes
     counts["reference_states"] = len(refstates)
     for v in viols.values():
         n = v.pop("_trace_len")
@@ -1237,6 +1526,18 @@ def plan(tier):
     small = {"max_user": 3, "max_dev": 1, "max_zero": 1}
     big = {"max_user": 4, "max_dev": 2, "max_zero": 2}
     out = []
+    # groups of their own (first, so that a time cap never cuts them): the same programs in other text layouts,
+    # augmented assignments
+    one = {"max_user": 3, "max_dev": 1, "max_zero": 1}
+    out.append(("layout-lay", "2-3" if tier == "quick" else "2-4",
+                layout_programs("lay", (2, 3) if tier == "quick" else (2, 3, 4)), "simple", one))
+    out.append(("layout-ctl", "2-3" if tier == "quick" else "2-4",
+                [p for p in layout_programs("ctl", (2, 3) if tier == "quick" else (2, 3, 4)) if has(p[0], "WN")],
+                "simple", one))
+    out.append(("aug", "2-5", aug_programs(), "simple", one))
+    for k in (3, 6, 12):
+        out.append(("loop", f"k={k}", loop_programs((k,)), "simple",
+                    {"max_user": k + 3, "max_dev": 1 if k == 3 else 0, "max_zero": 1, "repeat_blind": 1 if k == 3 else 0}))
     if tier == "quick":
         for n in (1, 2, 3):
             out.append(("full", n, programs("full", n, (1, 2)), "simple", small))
@@ -1244,7 +1545,7 @@ def plan(tier):
         for n in (3, 4, 5):
             out.append(("nsub", n, programs("nsub", n, (1, 2, 3), (1, 2)), "simple", small))
         for n in (1, 2, 3, 4):
-            out.append(("ctl", n, programs("ctl", n), "simple", small))
+            out.append(("ctl", n, programs("ctl", n), "simple", dict(small, repeat_blind=1) if n == 2 else small))
         out.append(("full", 4, programs("full", 4, (1, 2)), "simple", small))
     else:
         for n in (1, 2, 3):
@@ -1253,7 +1554,7 @@ def plan(tier):
         for n in (3, 4, 5, 6):
             out.append(("nsub", n, programs("nsub", n, (1, 2, 3), (1, 2)), "simple", big))
         for n in (1, 2, 3, 4, 5):
-            out.append(("ctl", n, programs("ctl", n), "simple", big))
+            out.append(("ctl", n, programs("ctl", n), "simple", dict(big, repeat_blind=2) if n <= 3 else big))
         out.append(("full", 4, programs("full", 4, (1, 2)), "simple", big))
         out.append(("nest", 5, programs("nest", 5), "simple", big))
         out.append(("nest", 6, programs("nest", 6), "simple", big))
@@ -1275,8 +1576,11 @@ def run(rep, tier):
         key = f"{g}:size={n}:f2={f2}"
         totals[key] = len(progs)
         bounds[key] = bnd
-        for main, subs in progs:
-            ts.append((len(ts), main, subs, f2, dict(bnd, max_depth=60, seed=seed, grammar=key)))
+        for pr in progs:
+            main, subs = pr[0], pr[1]
+            ts.append((len(ts), main, subs, f2, dict(bnd, max_depth=60, seed=seed, grammar=key,
+                                                     layout=pr[2] if len(pr) > 2 else None,
+                                                     pump_max=PUMP_MAX[tier])))
     budget = 50 if tier == "quick" else 17 * 60
     deadline = time.time() + budget
     done = {}
@@ -1314,7 +1618,10 @@ def run(rep, tier):
     rep.set("violation_classes", {s: {"histories": v["n"], "smallest": v["what"]} for s, v in sorted(by_sig.items())})
     rep.set("violation_classes_found", len(by_sig))
     rep.set("violation_classes_not_in_known_findings", new)
-    rep.set("bounds", {"per_group (max user turns / max unexpected turns / max actions returning 0 per history)": bounds,
+    rep.set("bounds", {"repetitions_of_a_call_that_changes_the_instance_state": PUMP_MAX[tier],
+                       "histories_repeated_per_program": PUMP_NODES,
+                       "indentation_steps": [2, 4], "augmented_assignment_right_hand_sides": list(AUG_RHS),
+                       "per_group (max user turns / max unexpected turns / max actions returning 0 per history)": bounds,
                        "action_results": [0, 1], "grammars": GRAMMARS})
     rep.set("exhaustive", n_done == len(ts))
     if n_done < len(ts):
@@ -1334,6 +1641,13 @@ def run(rep, tier):
         "checked for identical decisions on the used and the fresh instance",
         "fresh instance = runtime whose flow configs are built from a pristine copy of an independent second parse",
         "VERIF_SEED only changes the order of the flow definitions in the text and the order of user choices",
+        "layout groups: indentation steps 2 and 4 per block kind, blocks indented relative to their opening line; "
+        "the docs recommend (not require) two spaces and call the syntax pythonic, so every such text is the same program",
+        "`+=` / `-=` are parser shorthands the docs do not describe; conventional meaning (right-hand side first), "
+        "right-hand sides from AUG_RHS, evaluated by Python in the reference",
+        "state of the used instance = pickle of (runtime.flow_configs, config.flows, plain attributes of the runtime "
+        "object, module-level numbers/containers of nemoguardrails.colang.v1_0.runtime.{sliding,flows,eval,utils,runtime}); "
+        "state kept elsewhere (closures, function attributes) is only met by the blind repetitions",
     ]
 
 
@@ -1388,6 +1702,11 @@ def repeat_earlier_calls(W, earlier):
             h = build_history(W, sc, 0)
             if h is not None:
                 W.whole_turn(h, t[2])
+        elif t[0] == "r":
+            h = build_history(W, sc, t[2])
+            if h is not None:
+                for _ in range(t[3]):
+                    W.eval_used(h)
 
 
 def replay(rp):
